@@ -52,6 +52,15 @@ func (e *unaryMathExpr) Merge(b []byte, x []byte, y []byte) ([]byte, []byte, []b
 }
 
 func (e *unaryMathExpr) SubMergers(subs []Expr) []SubMerge {
+	for i, sub := range subs {
+		if e.String() == sub.String() {
+			// We have an exact match, its stored state is the wrapped expression's
+			sms := make([]SubMerge, len(subs))
+			sms[i] = e.subMerge
+			return sms
+		}
+	}
+
 	ssms := e.Wrapped.SubMergers(subs)
 	sms := make([]SubMerge, len(subs))
 	for i, sub := range subs {
@@ -60,6 +69,10 @@ func (e *unaryMathExpr) SubMergers(subs []Expr) []SubMerge {
 		}
 	}
 	return ssms
+}
+
+func (e *unaryMathExpr) subMerge(data []byte, other []byte, otherRes time.Duration, metadata goexpr.Params) {
+	e.Wrapped.Merge(data, data, other)
 }
 
 func (e *unaryMathExpr) Get(b []byte) (float64, bool, []byte) {
